@@ -5486,3 +5486,137 @@ def own_growth_rules(ctx):
             if len(c.t['a']) >= 3:
                 t = core.sym(h).operand(c.t['a'][2])
                 ctx.check(t[0] == 'const' and t[2] is False, 'const|%s|open-own-length' % h.path, 'opening a storage never treats its length as redb\'s own uncommitted growth', h, c.line)
+
+
+def round5_rules(ctx):
+    # --- cursor run splice: a failed splice poisons the cursor (the run and the position are already taken)
+    ctx.set_rule('C05.R11', 'a failed splice of a coalescing run poisons the cursor: its buffered removals can no longer be applied')
+    f = ctx.fn('CursorMut::splice_open_run')
+    if f is not None:
+        sr = ctx.sites(f, 'CursorMut::splice_run', exact=1)
+        po = ctx.sites(f, 'CursorMut::poison', exact=1)
+        ie = [c for c in f.calls if c.matches('Result::is_err') and not f.blocks[c.bb]['c']]
+        if sr and po:
+            if ie:
+                e_ok = _switch_edges_on_call(f, ie[0].bb, False)
+            else:
+                e_ok = core.guard_edges(f, [ok('CursorMut::splice_run')])
+            r = core.reach(f, start=(sr[0].bb, len(f.blocks[sr[0].bb]['s'])), cut_edges=e_ok, cut_blocks={p.bb for p in po})
+            bad = [rb for rb in f.ret_blocks() if rb in r['term']] if e_ok else f.ret_blocks()
+            ctx._ob(not bad, ctx.sample('must-pass', f, sr[0].line, 'Err from splice_run => poison'))
+            if bad:
+                ctx.violate('must-pass|%s|splice-error-not-poisoned' % f.path, 'splice_open_run can return the error of splice_run without poisoning the cursor: the transaction could commit a half-applied retain / extract', f, sr[0].line)
+    # --- subtree trees of a multimap are keyed by the VALUE type
+    ctx.set_rule('C12.R8', 'every tree built for a multimap value subtree uses the value width as its key width (sibling agreement in multimap_btree.rs)')
+    n = 0
+    for f in ctx.facts.fn_list:
+        if not f.file.endswith('multimap_btree.rs'):
+            continue
+        s_ = core.sym(f)
+        for c in f.calls:
+            if f.blocks[c.bb]['c'] or not c.matches(('RawBtree::new', 'UntypedBtree::new', 'UntypedBtreeMut::new')):
+                continue
+            args = c.t['a']
+            # the value-width argument is the last Option<usize>-like pair: find the pair (kw, vw) = the two args before which come root/mem/...
+            widths = [a for a in args if True]
+            # locate `<() as Value>::fixed_width()` among the arguments
+            unit_idx = None
+            for i_, a in enumerate(args):
+                t = s_.operand(a)
+                if t[0] == 'call':
+                    cs = core.CallSite(f, t[1], f.blocks[t[1]]['t'])
+                    if (cs.callee or '').endswith('::fixed_width') and (cs.t.get('ga') or [''])[0] in ('()',):
+                        unit_idx = i_
+            if unit_idx is None or unit_idx == 0:
+                continue
+            n += 1
+            kd = s_.describe(s_.operand(args[unit_idx - 1]))
+            ok_ = 'value' in kd and 'key' not in kd
+            ctx._ob(ok_, ctx.sample('agreement', f, c.line, 'subtree key width is the value width (%s)' % kd))
+            if not ok_:
+                ctx.violate('agreement|%s|subtree-key-width' % f.path, 'a tree over a multimap value subtree is built with key width `%s`: subtrees are keyed by the value type, so pages are parsed / checksummed with the wrong layout' % kd, f, c.line)
+    ctx.check(n >= 4, 'floor|subtree-constructors', 'constructions of subtree trees analysed: %d' % n)
+    # --- multimap page walk: the full path of a subtree page starts with the outer path
+    ctx.set_rule('C13.R8', '')
+    f = ctx.fn('UntypedMultiBtree::visit_all_pages')
+    if f is not None:
+        for cl in f.closures:
+            for inner in [cl] + list(cl.closures):
+                for c in inner.calls_to('PagePath::with_subpath'):
+                    s_ = core.sym(inner)
+                    d = s_.describe(s_.operand(c.t['a'][0]))
+                    ok_ = 'path' in d and 'call:' not in d
+                    ctx._ob(ok_, ctx.sample('arg-flow', inner, c.line, 'with_subpath extends the outer path (%s)' % d))
+                    if not ok_:
+                        ctx.violate('arg-flow|%s|outer-path-dropped' % f.path, 'the path reported for a subtree page is not built on the outer page\'s own path (receiver: %s): its ancestors in the outer tree are lost' % d, inner, c.line)
+                ctx.check(not inner.calls_to('PagePath::new_root'), 'shape|%s|new-root-in-walk|%s' % (f.path, inner.path.split('::')[-1]), 'the multimap walk does not start a fresh path for subtree pages', inner, inner.line)
+    # --- claiming an unpersisted page removes it from every record
+    ctx.set_rule('C06.R16', 'claiming an unpersisted page drops it from the page set, the reverse index and the per-transaction allocation record')
+    f = ctx.fn('UnpersistedState::claim')
+    if f is not None:
+        s_ = core.sym(f)
+        rms = [c for c in f.calls if (c.declared or c.callee or '').split('::')[-1] == 'remove' and not f.blocks[c.bb]['c']]
+        subj = []
+        for c in rms:
+            subj.append(s_.describe(s_.operand(c.t['a'][0])).split('.')[-1])
+        need = {'pages', 'post_commit_allocations', 'allocation_txn'}
+        ok_ = need <= set(subj)
+        ctx._ob(ok_, ctx.sample('shape', f, f.line, 'claim removes from %s' % sorted(set(subj))))
+        if not ok_:
+            ctx.violate('shape|%s|incomplete-claim' % f.path, 'claim() does not remove the page from %s' % sorted(need - set(subj)), f, f.line)
+        # the page also leaves the forward record of its transaction: a remove on the set obtained from allocations.get_mut
+        def from_get_mut(t, depth=0):
+            if depth > 5:
+                return False
+            if t[0] == 'place':
+                return from_get_mut(t[1], depth + 1)
+            if t[0] == 'call':
+                cs = core.CallSite(f, t[1], f.blocks[t[1]]['t'])
+                nm = (cs.declared or cs.callee or '').split('::')[-1]
+                if nm == 'get_mut':
+                    return True
+                if nm in ('expect', 'unwrap', 'branch', 'ok_or', 'ok_or_else') and cs.t['a']:
+                    return from_get_mut(s_.operand(cs.t['a'][0]), depth + 1)
+            return False
+        fwd = [c for c in rms if from_get_mut(s_.operand(c.t['a'][0]))]
+        ctx._ob(len(fwd) >= 1, ctx.sample('shape', f, f.line, 'the page leaves allocations[txn]'))
+        if not fwd:
+            ctx.violate('shape|%s|forward-record-kept' % f.path, 'claim() leaves the page in the per-transaction allocation record (allocations[txn]): a later savepoint restore or durable commit would treat a reclaimed page as allocated by that transaction', f, f.line)
+    # --- savepoint records: the root-present marker
+    ctx.set_rule('C07.R14', 'a serialised savepoint marks a null root as absent')
+    f = ctx.fn('SerializedSavepoint::from_savepoint')
+    if f is not None:
+        pushes = [c for c in f.calls_to('Vec::push') if not f.blocks[c.bb]['c']]
+        s_ = core.sym(f)
+        consts = sorted(str(s_.operand(c.t['a'][1])[2]) for c in pushes if s_.operand(c.t['a'][1])[0] == 'const')
+        ok_ = consts == ['0', '1']
+        ctx._ob(ok_, ctx.sample('shape', f, f.line, 'marker 1 for a present root, 0 for a null root'))
+        if not ok_:
+            ctx.violate('shape|%s|root-marker' % f.path, 'from_savepoint does not write the constant markers 1 (root present) and 0 (null root) (constant pushes found: %s)' % consts, f, f.line)
+        one = [cpoint(c) for c in pushes if s_.operand(c.t['a'][1]) [0] == 'const' and str(s_.operand(c.t['a'][1])[2]) == '1']
+        zero = [cpoint(c) for c in pushes if s_.operand(c.t['a'][1])[0] == 'const' and str(s_.operand(c.t['a'][1])[2]) == '0']
+        if one and zero:
+            ctx.guarded(f, one, [Guard(place='savepoint.user_root', vals={'Some'})], 'marker 1 only for a present root')
+            ctx.guarded(f, zero, [Guard(place='savepoint.user_root', vals={'None'})], 'marker 0 only for a null root')
+    # --- double-ended range: an end is positioned before the two ends are compared
+    ctx.set_rule('C02.R13', 'a range end is positioned before the ends are compared, so the first step of a fresh end cannot cross the other end')
+    f = ctx.fn('BtreeCursorRange::next_from_inner')
+    if f is not None:
+        pr = ctx.sites(f, 'BtreeCursorRange::prepare', exact=1)
+        hr = ctx.sites(f, 'BtreeCursorRange::cursors_have_remaining', exact=1)
+        ad = ctx.sites(f, 'BtreeCursorRange::advance_cursor', exact=1)
+        ctx.order(f, pr, hr, 'prepare(side) runs before cursors_have_remaining()')
+        ctx.order(f, hr, ad, 'the ends are compared before the cursor advances')
+    # --- check_integrity with a pending commit verifies from the storage
+    ctx.set_rule('C12.R9', 'with a pending non-durable commit, check_integrity verifies the live and the durable state from the storage, not from the page cache')
+    f = ctx.fn('Database::check_integrity_inner')
+    if f is not None:
+        cr = ctx.sites(f, TM + '::clear_read_cache', floor=1)
+        rl = ctx.sites(f, 'Database::repair_live_state', exact=1)
+        dc = ctx.sites(f, 'Database::durable_state_clean', exact=1)
+        for p in rl + dc:
+            r = core.reach(f, cut_blocks={q.bb for q in cr})
+            okc = p.bb not in r['term']
+            ctx._ob(okc, ctx.sample('order', f, p.line, 'read cache cleared before %s' % p.desc))
+            if not okc:
+                ctx.violate('order|%s|cached-verification|%s' % (f.path, p.desc), '%s can run without the read cache having been cleared: damage in the storage is hidden by cached pages and the check may certify it' % p.desc, f, p.line)
